@@ -852,3 +852,100 @@ pub fn starttls_garbage(ctx: &Ctx) -> Report {
     rep.sample(json!({"lane":"starttls_garbage","fixed_answers":answers.iter().take(7).map(|a| a.1.clone()).collect::<Vec<_>>()}));
     rep
 }
+
+// ---------------- undecodable input on a connection with nothing pending ----------------
+
+/// "Ends the connection" does not depend on somebody waiting: bytes that are complete by their own
+/// outer length and not an LDAPMessage, arriving while no operation is outstanding (fresh
+/// connection, or between operations), end the driver with an error; the handle reports the
+/// connection as closed and the next operation fails at once instead of being sent.
+pub fn idle_connection(ctx: &Ctx) -> Report {
+    let n = ctx.n(3_000, 1_000_000);
+    par_cases(ctx, "idle_connection", n, ctx.secs(10, 200), |i, rng, rep| {
+        let (bytes, label) = loop {
+            let (b, l) = hostile_input(rng, 1);
+            if ber::outer_complete(&b).map(|t| t == b.len()).unwrap_or(false) && envelope_class(&b) == "not-an-envelope" {
+                break (b, l);
+            }
+            if rng.chance(1, 3) {
+                break (rng.pick(&[&[0x30u8, 0x00][..], &[0x04, 0x03, 0x01, 0x02, 0x03], &[0x30, 0x03, 0x02, 0x01, 0x01]]).to_vec(), "fixed non-envelope".to_string());
+            }
+        };
+        let warm = rng.bool();
+        let eof_instead = rng.chance(1, 6);
+        let rt = runtime(rng.next());
+        let b2 = bytes.clone();
+        let (first, drv, closed, later, wire_after) = rt.block_on(async move {
+            let c = connect();
+            let mut ldap = c.ldap;
+            let mut server = c.server;
+            let tx = server.tx();
+            let srv = tokio::spawn(async move {
+                let mut n = 0usize;
+                while let Some(w) = server.request().await {
+                    n += 1;
+                    if let Ok(m) = w.msg {
+                        if let Some(r) = crate::msg::reply_for(&m.op, Res::ok("t:ok")) {
+                            server.send(&ber::encode_min(&resp_node(m.id, &r, None)));
+                        }
+                    }
+                }
+                n
+            });
+            let mut first = String::from("-");
+            if warm {
+                first = match world::watchdog(ldap.delete("op=1")).await {
+                    Ok(Ok(r)) => format!("Ok({})", r.rc),
+                    Ok(Err(e)) => format!("Err({})", world::err_class(&e)),
+                    Err(()) => "Hung".into(),
+                };
+            }
+            world::settle().await;
+            // nothing is outstanding now
+            if eof_instead {
+                tx.eof();
+            } else {
+                tx.send(&b2);
+            }
+            world::settle().await;
+            world::settle().await;
+            let closed = ldap.is_closed() && c.driver.is_finished();
+            let later = match world::watchdog(ldap.delete("op=2")).await {
+                Ok(Ok(r)) => format!("Ok({})", r.rc),
+                Ok(Err(e)) => format!("Err({})", world::err_class(&e)),
+                Err(()) => "Hung".into(),
+            };
+            // the driver must be over without the handle having to go away first
+            let drv = match tokio::time::timeout(std::time::Duration::from_secs(3600), c.driver).await {
+                Ok(d) => format!("{:?}", d),
+                Err(_) => "STILL-RUNNING".to_string(),
+            };
+            drop(ldap);
+            let n = srv.await.unwrap_or(0);
+            (first, drv, closed, later, n)
+        });
+        let replay = json!({"lane":"idle_connection","case":i});
+        let what = if eof_instead { "end-of-stream".to_string() } else { format!("{} ({})", ber::hex(&bytes[..bytes.len().min(40)]), label) };
+        let desc = format!("{} {} on a connection with nothing outstanding{}: driver {}, connection over before the next operation {}, next operation {}, requests the server saw {}", if eof_instead { "EOF" } else { "undecodable input" }, what, if warm { " (after one completed operation)" } else { "" }, drv, closed, later, wire_after);
+        if warm && first != "Ok(0)" {
+            rep.inconclusive(format!("idle_connection case {}: warm-up operation {}", i, first));
+            rep.case(None);
+            return;
+        }
+        if drv == "STILL-RUNNING" {
+            rep.violation(if eof_instead { "C11:idle-connection:driver-keeps-running-after-end-of-stream" } else { "C11:idle-connection:undecodable-input-does-not-end-the-connection" }, desc.clone(), replay.clone());
+        } else if drv.contains("Panic") || drv.starts_with("Err(") {
+            rep.violation("C11:idle-connection:driver-panic", desc.clone(), replay.clone());
+        } else if !eof_instead && drv.starts_with("Ok(Ok(Ok(") {
+            rep.violation("C11:idle-connection:undecodable-input-ends-the-connection-without-an-error", desc.clone(), replay.clone());
+        }
+        if !closed && drv != "STILL-RUNNING" {
+            rep.violation(if eof_instead { "C11:idle-connection:end-of-stream-noticed-only-when-the-next-operation-is-issued" } else { "C11:idle-connection:undecodable-input-ends-the-connection-only-when-the-next-operation-is-issued" }, desc.clone(), replay.clone());
+        }
+        if later.starts_with("Ok(") || later == "Hung" {
+            rep.violation(format!("C11:idle-connection:operation-after-the-connection-ended:{}", if later == "Hung" { "hangs" } else { "is-answered" }), desc, replay);
+        }
+        rep.count(if eof_instead { "idle_eof" } else { "idle_undecodable_input" }, 1);
+        rep.case(Some(fnv(&bytes) ^ warm as u64));
+    })
+}
